@@ -106,7 +106,7 @@ def project_lim(impl):
 
 class C10(Prop):
     id = "C10"
-    modules = ["H3.Props.C10", "H3.Props.C11Closed"]
+    modules = ["H3.Props.C10", "H3.Props.C11Closed", "H3.Lemmas.GenAgreeSend", "H3.Lemmas.GenAgreeQpack"]
     engines = ["qpack", "lim"]
     design_ref = "DESIGN.md section 7, C10"
     level_text = ("Lean theorems over the Qpack model (running mem_size with early cancel) and the six call sites as decision "
